@@ -46,10 +46,10 @@ type SeqCtx struct {
 	caseNo    int64
 	known     map[string]*Violation
 	// cases that violated during the search but not on their own (see Fail)
-	unreproduced      int
+	unreproduced int
 	// OpsPrefix is put in front of the operations of a violation (the parameters a job loops over outside bfs),
 	// before the case is replayed on its own and recorded.
-	OpsPrefix []string
+	OpsPrefix         []string
 	firstUnreproduced string
 }
 
